@@ -35,7 +35,7 @@ package main
 //@ func main [C18]
 //@   nopanic none
 //@   modifies *
-//@   atcall GetFileList compiled: compError == nil
+//@   atcall GetFileList compiled: defined(compError) && compError == nil
 //@   atcall RunFiles valid: (len(search_files_glob) != 0 || debug) && ((len(source) != 0) != (len(command) != 0)) && !(out_json && out_fjson)
 //@   atcall RunFiles args: arg2 == replaceModeArg && arg3 == process_filenames
 //@   ensures jsonfile: defined(results) && defined(json_file) && !no_output && len(results) != 0 && len(json_file) != 0 && json_file != fjson_file ==> select(fs, json_file) == jsonOf(box(engine.Matches, results))
